@@ -220,7 +220,12 @@ def judge_janssen_history(ctx, c):
     if not ok:
         return
     # typical use: the same spectra and winds are evaluated several times in a row
-    guarded(ctx, "C10.no-exception", lambda: b.generation.stress(s, sp, wd, wind_speed_input_type=itype), wit, key="C10:janssen:exception")
+    try:
+        b.generation.stress(s, sp, wd, wind_speed_input_type=itype)
+    except Exception:
+        # stress() without a supplied roughness may raise where the roughness has no solution; C10 is about the
+        # roughness that roughness() returns, so this is counted, not judged
+        ctx.count("C10.stress()_raised_in_history(not judged)")
     b.generation.update_parameters(upd)
     ok, z2 = guarded(ctx, "C10.no-exception", lambda: b.generation.roughness(sp, wd, s, wind_speed_input_type=itype), wit,
                      key="C10:janssen:exception")
